@@ -44,6 +44,7 @@ type Server struct {
 	IP            string   `json:"ip"`
 	TCPPort       int      `json:"tcpPort,omitempty"`
 	UDPPort       int      `json:"udpPort,omitempty"`
+	Acceptors     int      `json:"acceptors,omitempty"` // concurrent Server.Accept callers in the server application (default 1)
 }
 
 // Script is what one application end does on one connection.
@@ -83,13 +84,13 @@ type Client struct {
 
 // DgramRule is one explicit datagram fate.
 type DgramRule struct {
-	Client int    `json:"client"`         // which client's flow
-	Dir    int    `json:"dir"`            // 0 c2s, 1 s2c
-	Index  int    `json:"index"`          // datagram index within (flow, dir); -1 with Match set = by content class
+	Client int    `json:"client"`          // which client's flow
+	Dir    int    `json:"dir"`             // 0 c2s, 1 s2c
+	Index  int    `json:"index"`           // datagram index within (flow, dir); -1 with Match set = by content class
 	Match  string `json:"match,omitempty"` // targeted: "openreq","openresp","closereq","closeresp","data:<seq>","ack","anydata"; Nth counts matches
-	Nth    int    `json:"nth,omitempty"`  // apply to the Nth.. match (0-based)
+	Nth    int    `json:"nth,omitempty"`   // apply to the Nth.. match (0-based)
 	Count  int    `json:"count,omitempty"` // how many consecutive matches (default 1)
-	Kind   string `json:"kind"`           // "drop" | "dup" | "delay" | "corrupt"
+	Kind   string `json:"kind"`            // "drop" | "dup" | "delay" | "corrupt"
 	ArgUs  int64  `json:"argUs,omitempty"` // delay amount / duplicate spacing
 	Copies int    `json:"copies,omitempty"`
 	Off    int64  `json:"off,omitempty"` // corrupt: offset
@@ -108,15 +109,15 @@ type Blackhole struct {
 
 // StreamFault is a fault on one TCP-like connection (by dial order).
 type StreamFault struct {
-	Conn   int    `json:"conn"`
-	Dir    int    `json:"dir"`
-	Kind   string `json:"kind"` // "rewrite" | "cut-fin" | "cut-rst" | "stall" | "reset-at" | "blackhole-at"
-	Off    int64  `json:"off,omitempty"`
-	Del    int64  `json:"del,omitempty"`
-	Ins    []byte `json:"ins,omitempty"`
-	Xor    byte   `json:"xor,omitempty"`
-	ArgUs  int64  `json:"argUs,omitempty"`
-	AtUs   int64  `json:"atUs,omitempty"`
+	Conn  int    `json:"conn"`
+	Dir   int    `json:"dir"`
+	Kind  string `json:"kind"` // "rewrite" | "cut-fin" | "cut-rst" | "stall" | "reset-at" | "blackhole-at"
+	Off   int64  `json:"off,omitempty"`
+	Del   int64  `json:"del,omitempty"`
+	Ins   []byte `json:"ins,omitempty"`
+	Xor   byte   `json:"xor,omitempty"`
+	ArgUs int64  `json:"argUs,omitempty"`
+	AtUs  int64  `json:"atUs,omitempty"`
 }
 
 type Net struct {
@@ -129,14 +130,14 @@ type Net struct {
 	PathMTU     int   `json:"pathMtu,omitempty"`
 
 	// Random datagram faults (rates per datagram), active until HealUs.
-	DropRate     float64 `json:"dropRate,omitempty"`
-	DupRate      float64 `json:"dupRate,omitempty"`
-	DelayRate    float64 `json:"delayRate,omitempty"`
-	MaxDelayUs   int64   `json:"maxDelayUs,omitempty"`
-	CorruptRate  float64 `json:"corruptRate,omitempty"`
-	MaxDropPerSeg int    `json:"maxDropPerSeg,omitempty"` // fairness budget: drops per (flow,dir,type,seq); 0 = unlimited
-	MaxHandshakeDrops int `json:"maxHandshakeDrops,omitempty"`
-	HealUs       int64   `json:"healUs,omitempty"` // 0: faults never stop
+	DropRate          float64 `json:"dropRate,omitempty"`
+	DupRate           float64 `json:"dupRate,omitempty"`
+	DelayRate         float64 `json:"delayRate,omitempty"`
+	MaxDelayUs        int64   `json:"maxDelayUs,omitempty"`
+	CorruptRate       float64 `json:"corruptRate,omitempty"`
+	MaxDropPerSeg     int     `json:"maxDropPerSeg,omitempty"` // fairness budget: drops per (flow,dir,type,seq); 0 = unlimited
+	MaxHandshakeDrops int     `json:"maxHandshakeDrops,omitempty"`
+	HealUs            int64   `json:"healUs,omitempty"` // 0: faults never stop
 	// Disabled lists fault instances (by datagram id) turned into plain deliveries by the minimiser.
 	Disabled []int `json:"disabled,omitempty"`
 
@@ -161,13 +162,36 @@ type RunSpec struct {
 	Extra         json.RawMessage `json:"extra,omitempty"`
 	KeepLog       bool            `json:"keepLog,omitempty"`
 	Dump          bool            `json:"dump,omitempty"` // reference pass: record segment geometry and wire bytes
+	Attack        *Attack         `json:"attack,omitempty"`
+}
+
+// Attack describes attacker actors that run beside the genuine workload.
+type Attack struct {
+	Probes []Probe `json:"probes"`
+}
+
+// Probe is one attacker connection / datagram burst.
+type Probe struct {
+	Kind      string `json:"kind"`      // random | prefix | bitflip | trunc | foreign-user | wrong-password | stolen-hint | replay-stream | replay-prefix | replay-first | replay-dgrams | replay-first-dgram | hostile
+	Transport string `json:"transport"` // tcp | udp
+	IP        string `json:"ip"`
+	AtUs      int64  `json:"atUs"`               // earliest start (relative to run start)
+	AfterEnd  bool   `json:"afterEnd,omitempty"` // wait until the source session has ended
+	Source    int    `json:"source"`             // genuine client whose traffic is copied
+	Len       int    `json:"len,omitempty"`
+	Arg       int    `json:"arg,omitempty"` // prefix length / bit index / segment count
+	Dribble   bool   `json:"dribble,omitempty"`
+	HoldUs    int64  `json:"holdUs,omitempty"`
+	Seed      uint64 `json:"seed,omitempty"`
+	User      int    `json:"user,omitempty"` // hostile: index of the registered user the attacker controls
+	Count     int    `json:"count,omitempty"`
 }
 
 // SegGeo is the byte geometry of one decoded segment (reference pass of C04).
 type SegGeo struct {
 	Scope  string `json:"scope"` // "tcp#<conn>" or the client flow address
 	Client int    `json:"client"`
-	Conn   int    `json:"conn"`  // tcp: connection index
+	Conn   int    `json:"conn"` // tcp: connection index
 	Dir    int    `json:"dir"`
 	Index  int    `json:"index"` // udp: datagram index within (flow, dir)
 	Type   int    `json:"type"`
